@@ -35,6 +35,14 @@ def run(tier, seed):
     bdir = runner.build()
     wd = runner.workdir("check_C07")
     violations = []
+    # signature algorithms (MxSigNeg): the rule holds on the model, and the code as found (server signs from the client's list
+    # alone) must break it - a sensitivity run
+    sg = tlcutil.run_tlc("MxSigNeg.tla", "MxSigNeg.cfg", workers=4, timeout=600, tag="mcC07s")
+    if sg["violation"] or not sg["ok"]:
+        print(sg["out"][-2000:]); raise SystemExit("INFRA: TLC failed on MxSigNeg")
+    sg2 = tlcutil.run_tlc("MxSigNeg.tla", "MxSigNeg_AsFound.cfg", workers=4, timeout=600, tag="mcC07s")
+    if not sg2["violation"]:
+        raise SystemExit("INFRA: sensitivity run MxSigNeg_AsFound was not violated")
     mc = tlcutil.run_tlc("MxNegotiate.tla", "MxNegotiate_MC.cfg", workers=16, timeout=3000, tag="mcC07")
     if mc["violation"]:
         p = os.path.join(wd, "model_violation.txt"); open(p, "w").write(mc["out"][-30000:])
